@@ -69,6 +69,38 @@ fn replay_string(s: &mut Summary, c: &Value) {
                         if Rsync::from_slice(text.as_bytes()).ok().as_ref() != Some(&u) || Rsync::from_string(text.clone()).ok().as_ref() != Some(&u) {
                             return Err("from_slice/from_string disagree with from_str".into());
                         }
+                        // every parser entry point keeps the text byte for byte (== compares scheme and authority without case)
+                        let routes: Vec<(&str, Result<Rsync, rpki::uri::Error>)> = vec![
+                            ("from_slice", Rsync::from_slice(text.as_bytes())), ("from_string", Rsync::from_string(text.clone())),
+                            ("from_bytes", Rsync::from_bytes(bytes::Bytes::copy_from_slice(text.as_bytes()))),
+                            ("try_from", Rsync::try_from(text.clone())), ("parse", text.parse::<Rsync>()),
+                            ("serde", serde_json::from_value::<Rsync>(Value::String(text.clone())).map_err(|_| rpki::uri::Error::BadUri)),
+                        ];
+                        for (name, r) in routes {
+                            match r {
+                                Ok(v) => {
+                                    if v.as_str() != text || v.to_bytes().as_ref() != text.as_bytes() || v.path_bytes() != ep.as_bytes() || v.authority() != ea || v.module_name() != em {
+                                        return Err(format!("{name}: text or components changed: '{}'", v.as_str()));
+                                    }
+                                }
+                                Err(_) => return Err(format!("{name} refuses what from_str accepts")),
+                            }
+                        }
+                        for ext in [".cer", "/", "a", ""] {
+                            if u.ends_with(ext) != ep.ends_with(ext) {
+                                return Err(format!("ends_with({ext:?}) = {}", u.ends_with(ext)));
+                            }
+                        }
+                        // path_into_dir: the same URI with one slash appended unless the path is empty or ends in one
+                        let mut d = u.clone();
+                        d.path_into_dir();
+                        let want_dir = if ep.is_empty() || ep.ends_with('/') { text.clone() } else { format!("{text}/") };
+                        if d.as_str() != want_dir || !d.path_is_dir() || d.authority() != ea || d.module_name() != em {
+                            return Err(format!("path_into_dir gives '{}', expected '{want_dir}'", d.as_str()));
+                        }
+                        if Rsync::from_str(d.as_str()).ok().as_ref() != Some(&d) {
+                            return Err(format!("path_into_dir result '{}' does not re-parse to an equal value", d.as_str()));
+                        }
                         let j = serde_json::to_string(&u).map_err(|e| e.to_string())?;
                         let back: Rsync = serde_json::from_str(&j).map_err(|e| e.to_string())?;
                         if back != u || back.as_str() != text {
@@ -120,6 +152,32 @@ fn replay_string(s: &mut Summary, c: &Value) {
                         if u.authority() != ea || u.path() != ep || format!("{sch}{}{}", u.authority(), u.path()) != text {
                             return Err(format!("components ({},{}) vs specification ({ea},{ep})", u.authority(), u.path()));
                         }
+                        let routes: Vec<(&str, Result<Https, rpki::uri::Error>)> = vec![
+                            ("from_slice", Https::from_slice(text.as_bytes())), ("from_string", Https::from_string(text.clone())),
+                            ("from_bytes", Https::from_bytes(bytes::Bytes::copy_from_slice(text.as_bytes()))),
+                            ("try_from", Https::try_from(text.clone())), ("parse", text.parse::<Https>()),
+                            ("serde", serde_json::from_value::<Https>(Value::String(text.clone())).map_err(|_| rpki::uri::Error::BadUri)),
+                        ];
+                        for (name, r) in routes {
+                            match r {
+                                Ok(v) => {
+                                    if v.as_str() != text || v.as_slice() != text.as_bytes() || v.authority() != ea || v.path() != ep || v != u {
+                                        return Err(format!("{name}: text or components changed: '{}'", v.as_str()));
+                                    }
+                                }
+                                Err(_) => return Err(format!("{name} refuses what from_str accepts")),
+                            }
+                        }
+                        if !u.scheme().as_str().eq_ignore_ascii_case("https") {
+                            return Err(format!("scheme() = {}", u.scheme().as_str()));
+                        }
+                        // (path_is_dir / path_into_dir of an HTTPS URI treat a path-less URI as no directory; the statement does not
+                        // speak about them - observed under a `beyond:` key only)
+                        let mut d = u.clone();
+                        d.path_into_dir();
+                        if d.authority() != ea || Https::from_str(d.as_str()).ok().as_ref() != Some(&d) {
+                            return Err(format!("beyond:path_into_dir gives '{}', which does not re-parse to an equal value with the same authority", d.as_str()));
+                        }
                         let j = serde_json::to_string(&u).map_err(|e| e.to_string())?;
                         let back: Https = serde_json::from_str(&j).map_err(|e| e.to_string())?;
                         if back != u || back.as_str() != text {
@@ -143,6 +201,7 @@ fn replay_string(s: &mut Summary, c: &Value) {
                     });
                     match chk {
                         Ok(Ok(())) => {}
+                        Ok(Err(m)) if m.starts_with("beyond:") => s.violation("beyond:https:path_into_dir", format!("'{text}': {m}"), case.clone()),
                         Ok(Err(m)) => s.violation("https:accessors", format!("'{text}': {m}"), case.clone()),
                         Err(m) => s.violation("https:accessor-panic", format!("'{text}': {m}"), case.clone()),
                     }
